@@ -63,6 +63,42 @@ pub fn check(cx: &Cx, rep: &mut Report) {
                 nontrivial = true;
             }
         }
+        // R1b: interval_with on a mailbox bounded to n: the timer has one send in flight at a time and a send only
+        // returns once the actor is at most n behind, so deliveries n+1 apart are at least one period apart
+        // (for n = 0: consecutive deliveries)
+        if t.kind == "interval_with" && !cx.mt {
+            if let Some(n) = af.decl.and_then(|d| if d.entry.builder() { d.mailbox } else { None }) {
+                for k in 0..deliveries.len().saturating_sub(n + 1) {
+                    rep.premise("C10.R1.interval_with_spacing");
+                    let (a, b) = (deliveries[k].1, deliveries[k + n + 1].1);
+                    if b < a + t.dur {
+                        rep.fail(P, "R1", format!("interval_with_bunched;n={n}"), format!("interval_with timer {} (period {}) on a mailbox bounded({n}): deliveries #{} and #{} at t={a} and t={b} are less than one period apart", t.id, t.dur, k + 1, k + n + 2), vec![deliveries[k].0, deliveries[k + n + 1].0]);
+                        break;
+                    }
+                }
+            }
+        }
+        // R2b: an `interval` timer never waits for the mailbox, so also on a busy actor every expiry before the
+        // actor stops accepting is delivered: the number of deliveries is determined by the clock alone
+        if t.kind == "interval" && af.incs.len() == 1 && !af.failed() && t.dur > 0 && af.stream_end.is_none() && af.decl.map(|d| !d.entry.stream()).unwrap_or(false) {
+            // the instant from which nothing more is accepted: the first accepted stop request / last drop
+            let close_stamp = af.stops.iter().filter(|s| s.accepted).map(|s| s.b).min().into_iter().chain(af.gone_at).min();
+            let terminated = af.t_final().is_some() && af.task_end.is_some();
+            if let (Some(cs), true) = (close_stamp, terminated) {
+                let close_vt = ix.ev[cs as usize].vt;
+                let lo = (close_vt.saturating_sub(t.reg_vt + 1)) / t.dur; // expiries strictly before close
+                // upper bound: library-internal transient strong handles (an interval_with send parked in flush) can
+                // keep the mailbox open past the last drop, but never past the moment stopped() begins
+                let t_in_vt = af.t_final().map(|x| ix.ev[x.0 as usize].vt).unwrap_or(close_vt).max(close_vt);
+                let hi = t_in_vt.saturating_sub(t.reg_vt) / t.dur; // expiries at or before stopped() began
+                // a stop accepted while earlier ticks are still queued does not lose them (drain barrier)
+                rep.premise("C10.R2.interval_count_on_busy_actor");
+                let got = deliveries.len() as u64;
+                if t.reg_vt <= close_vt && (got < lo || got > hi + 1) {
+                    rep.fail(P, "R2", "interval_count", format!("interval timer {} registered at t={} with period {} on actor tag {} that stopped accepting at t={close_vt}: {got} deliveries, expected between {lo} and {}", t.id, t.reg_vt, t.dur, af.tag, hi + 1), vec![t.reg, cs]);
+                }
+            }
+        }
         // R3: delayed timers fire at most once
         if !periodic {
             rep.premise("C10.R3.delayed_at_most_once");
